@@ -448,7 +448,12 @@ func dumpOne(bin, dir string, data []byte, expand, strs [][]int, how string, ord
 	es, perr := parseDump(stdout.String())
 	e.Entries = es
 	if perr != "" {
-		if e.Exit == 0 {
+		if e.Exit == 0 && strings.HasPrefix(perr, "length line says") {
+			// the tool's own length line and the value printed under it disagree: that is about the tool, not about this parser; the
+			// entries read so far plus a marker entry are judged (and cannot be explained)
+			e.Entries = append(e.Entries, entry{Ind: 0, Fn: -1, Wt: 2, Kind: "bytes", Val: []int{}})
+			e.Note = "output: " + perr
+		} else if e.Exit == 0 {
 			e.Note = "harness: " + perr
 		}
 		// partial output of a failed run is not judged
@@ -485,7 +490,9 @@ func genNodes(depth int) []node {
 		case 3:
 			nd.wt = 2
 			nd.str = true
-			nd.b = []byte([]string{"", "a", "hello world", "xyz"}[rng.Intn(4)])
+			// (text that means something to a formatter or a terminal: it is printed verbatim)
+			nd.b = []byte([]string{"", "a", "hello world", "xyz", "100% done", "%d %s %v%", "50%", "a%0Ab%20c", "two\nlines", "tab\there", "caf\u00e9 \u2713",
+				"%!s(MISSING)", "{{.}} $HOME `x`"}[rng.Intn(13)])
 		case 4:
 			nd.wt = 2
 			nd.b = make([]byte, rng.Intn(6))
